@@ -216,6 +216,18 @@ theorem fact_v1_export_pipeline :
   refine ⟨by rfl, by rfl, by rfl, by rfl, by rfl, by rfl, by rfl⟩
 
 open Generated.V1Export in
+/-- In the import loop the private/public decision (`isPrivate`) and the key context
+(`getContextFromFilename`) are taken from the *whole* record name – a rotated key
+`<key file>.old/<timestamp>` is classified by its history directory, which is what
+`ExportV1.importRecord` does (`isPrivate r.1`, `ctxOfName r.1`) – and only `DescribeKeyFile` is given the
+base name. (Local names assigned once are replaced by their defining expression by the translator.) Given
+only the base name, `isPrivate` would call every rotated public key private: `v1_import_rotated_public_verbatim`
+below is the statement that depends on it. -/
+theorem fact_v1_import_name_args :
+    importNameArgs = ["isPrivate(key.Name)", "getContextFromFilename(key.Name)", "DescribeKeyFile(filepath.Base(key.Name))"] := by
+  rfl
+
+open Generated.V1Export in
 /-- The migration classifier, the fused map key (with its separator, repair 49), the path merge, the
 purpose → (export, import) table of `ImportKeyFileV1`, `describeNewKeyPair` taking the halves that
 exist (repair 48) and `AddKey` + `SetCurrent` are what `MigrateV1.lean` models. -/
@@ -415,6 +427,33 @@ theorem v1_export_context_rotated (id ts : Bytes) (hv : validateID id = true) (h
     ctxOfName (histName (symName id) ts) = V1WriteLog.Op.ctx (.genSymKey id []) ∧
     ctxOfName (histName (hmacName id) ts) = V1WriteLog.Op.ctx (.genHmacKey id []) :=
   ctxOfName_client_hist id ts hv hts hne
+
+/-- **Rotated public keys are imported verbatim.** For every valid client id, every name `time.Parse`
+accepts as a timestamp and every content `v`: the import loop classifies the record
+`<id>_storage.pub.old/<timestamp>` as *public* (by its history directory), so it writes exactly `v` –
+neither encrypted under the target's master key nor changed – and the target reads the file back as `v`:
+a rotated public key survives export ∘ import byte-identical, like the current one. The classification
+by the base name alone (the timestamp) would say "private" for every such record (second part): the
+argument `isPrivate` is given in `Import` is pinned by `fact_v1_import_name_args`. -/
+theorem v1_import_rotated_public_verbatim (e : Env) (ν : ExportV1.Nonces) (m : Bytes) (fs : Files)
+    (id ts v : Bytes) (hv : validateID id = true) (hts : isTimestamp ts = true) (hne : ts ≠ []) :
+    let name := histName (storagePubName id) ts
+    (ExportV1.importRecord e ν m fs (name, v)).1 = fs.put (targetPath name) v ∧
+    readBack e m name v = some v ∧
+    isPrivate (base name) = true := by
+  obtain ⟨hp, hb⟩ := isPrivate_hist_storagePub id ts hv hts hne
+  refine ⟨?_, ?_, ?_⟩
+  · simp [ExportV1.importRecord, hp]
+  · simp [readBack, hp]
+  · rw [hb]; exact isPrivate_timestamp ts hts hne
+
+/-- … and so is a rotated public key of the poison key pair (`.poison_key/poison_key.pub.old/<timestamp>`;
+the directory part makes the general statement a computation on a concrete timestamp). -/
+theorem v1_import_rotated_poison_public_verbatim (e : Env) (ν : ExportV1.Nonces) (m : Bytes) (fs : Files) (v : Bytes) :
+    let name := histName poisonPub (Path.ofStr "2026-09-23T08:24:04.293923735")
+    (ExportV1.importRecord e ν m fs (name, v)).1 = fs.put (targetPath name) v ∧ readBack e m name v = some v := by
+  have hp : isPrivate (histName poisonPub (Path.ofStr "2026-09-23T08:24:04.293923735")) = false := by decide
+  exact ⟨by simp [ExportV1.importRecord, hp], by simp [readBack, hp]⟩
 
 /-- **The export contexts are the key store's own (repairs 45).** For the poison symmetric key and
 for a rotated poison key pair the context `Export`/`Import` derive from the file name is the one the
